@@ -34,3 +34,4 @@ def check(ctx):
     dispatch.solver(ctx)
     dispatch.noise_cover(ctx)
     drivers.create_impl_table(ctx)
+    dispatch.hamiltonian_type_table(ctx)
